@@ -10,6 +10,13 @@ package eth2wrap_test
 // healthy primary (both orders)} x call {provide-style, submit-style, proxy} x {first call on the client object, second call}
 // x {the caller cancels 200 ms into the call, never}. Oracle: a cancelled call returns (with the context's error); with a
 // healthy primary the call succeeds; both without waiting for the hung node.
+//
+// Derived objects on the real network: the judged call is also made on ClientForAddress(healthy node) (x 3 calls x first /
+// second call x cancel / never) and on ClientForAddress(hung node) (second call, cancelled) of the "hung,healthy" client; the
+// healthy node is configured for the derived object under either reading of the scoping (a node client that has not
+// connected yet reports an empty address, so that the address is "not found" and the receiver is returned), hence the same
+// oracle. Topology "refused|healthy": node lists from NewSimnetFallbacks combined by Instrument; the primary's port is closed
+// (connection refused), the healthy fallback must answer.
 
 import (
 	"context"
@@ -32,10 +39,15 @@ type c19netCase struct {
 	Call     string `json:"call"`
 	Second   bool   `json:"second_call_on_the_same_client"`
 	Cancel   bool   `json:"caller_cancels_after_200ms"`
+	Scope    string `json:"judged_call_on_client_for_address_of,omitempty"` // "", "healthy", "hung"
 }
 
 func (c c19netCase) String() string {
-	return fmt.Sprintf("net %s %s second=%v cancel=%v", c.Topology, c.Call, c.Second, c.Cancel)
+	s := fmt.Sprintf("net %s %s second=%v cancel=%v", c.Topology, c.Call, c.Second, c.Cancel)
+	if c.Scope != "" {
+		s += " on ClientForAddress(" + c.Scope + " node)"
+	}
+	return s
 }
 
 const c19netBound = 20 * time.Second
@@ -80,11 +92,14 @@ func c19netRun(t *testing.T, cs c19netCase, healthy string) (returned bool, call
 			c()
 		}
 	}()
+	var hungAddr string
 	hung := func() string {
 		a, c := c19hungNode(t)
 		closers = append(closers, c)
+		hungAddr = a
 		return a
 	}
+	var refused string
 	switch cs.Topology {
 	case "hung":
 		prim = []string{hung()}
@@ -98,16 +113,32 @@ func c19netRun(t *testing.T, cs c19netCase, healthy string) (returned bool, call
 		prim = []string{hung(), healthy}
 	case "healthy,hung":
 		prim = []string{healthy, hung()}
+	case "refused|healthy":
+		// a port that was just released: connecting to it is refused
+		l, err := net.Listen("tcp", "127.0.0.1:0")
+		if err != nil {
+			return false, nil, "cannot listen on loopback"
+		}
+		refused = "http://" + l.Addr().String()
+		_ = l.Close()
+		prim, fall = []string{refused}, []string{healthy}
 	}
 	for _, a := range append(append([]string{}, prim...), fall...) {
 		if a == "" {
 			return false, nil, "cannot listen on loopback"
 		}
 	}
-	cl, err := eth2wrap.NewMultiHTTP(time.Hour, [4]byte{}, nil, prim, fall)
-	if err != nil {
-		return false, nil, "NewMultiHTTP: " + err.Error()
+	var constructed eth2wrap.Client
+	var err error
+	if refused != "" {
+		constructed, err = eth2wrap.Instrument(eth2wrap.NewSimnetFallbacks(time.Hour, [4]byte{}, nil, prim), eth2wrap.NewSimnetFallbacks(time.Hour, [4]byte{}, nil, fall))
+	} else {
+		constructed, err = eth2wrap.NewMultiHTTP(time.Hour, [4]byte{}, nil, prim, fall)
 	}
+	if err != nil {
+		return false, nil, "constructing the client: " + err.Error()
+	}
+	cl := constructed // the first call of a "second call" script is made on the constructed client, the judged call on the derived one
 	call := func(ctx context.Context) error {
 		switch cs.Call {
 		case "provide":
@@ -139,6 +170,12 @@ func c19netRun(t *testing.T, cs c19netCase, healthy string) (returned bool, call
 			return false, nil, "" // already the first (cancelled) call does not return: judged like any other
 		}
 		cancel0()
+	}
+	switch cs.Scope {
+	case "healthy":
+		cl = constructed.ClientForAddress(healthy)
+	case "hung":
+		cl = constructed.ClientForAddress(hungAddr)
 	}
 	ctx, cancel := context.WithCancel(context.Background())
 	defer cancel()
@@ -177,9 +214,11 @@ func c19partC(t *testing.T, r *enumx.Run) {
 		case !returned && cs.Cancel:
 			return "kind=cancel-not-prompt layer=node-connection", fmt.Sprintf("the caller cancelled 200 ms into the call; %s later the call had not returned", c19netBound), ""
 		case !returned && hasHealthy:
-			return "kind=waited-for-slower-nodes layer=node-connection", fmt.Sprintf("a healthy primary was configured, yet the call had not returned after %s", c19netBound), ""
+			return "kind=waited-for-slower-nodes layer=node-connection", fmt.Sprintf("a healthy node was configured (%s), yet the call had not returned after %s", cs.Topology, c19netBound), ""
+		case returned && hasHealthy && !cs.Cancel && callErr != nil && cs.Call != "submit" && cs.Topology == "refused|healthy":
+			return "kind=failed-although-a-fallback-succeeded layer=node-connection", fmt.Sprintf("the only primary refuses connections (unreachable) and a healthy fallback was configured, the call failed: %v", callErr), ""
 		case returned && hasHealthy && !cs.Cancel && callErr != nil && cs.Call != "submit":
-			return "kind=failed-although-a-primary-succeeded layer=node-connection", fmt.Sprintf("a healthy primary was configured, the call failed: %v", callErr), ""
+			return "kind=failed-although-a-primary-succeeded layer=node-connection", fmt.Sprintf("a healthy primary was configured (%s), the call failed: %v", cs.Topology, callErr), ""
 		}
 		return "", "", ""
 	}
@@ -190,7 +229,7 @@ func c19partC(t *testing.T, r *enumx.Run) {
 	// successfully" is only judged for those)
 	succeedsAlone := map[string]bool{}
 	for _, call := range []string{"provide", "submit", "proxy"} {
-		ret, err, problem := c19netRun(t, c19netCase{"healthy", call, false, false}, healthy)
+		ret, err, problem := c19netRun(t, c19netCase{"healthy", call, false, false, ""}, healthy)
 		succeedsAlone[call] = problem == "" && ret && err == nil
 		if !succeedsAlone[call] {
 			r.Note(fmt.Sprintf("part C: the beacon mock alone does not answer the %s-style call successfully (%v): topologies with a healthy node are not judged for it", call, err))
@@ -206,7 +245,7 @@ func c19partC(t *testing.T, r *enumx.Run) {
 					if !cancel && !strings.Contains(topo, "healthy") {
 						continue // nobody can answer and nobody cancels: the call legitimately waits for the node timeout
 					}
-					cs := c19netCase{topo, call, second, cancel}
+					cs := c19netCase{topo, call, second, cancel, ""}
 					sig, desc, problem := judge(cs)
 					if problem != "" {
 						r.Note("part C: " + problem)
@@ -235,5 +274,52 @@ func c19partC(t *testing.T, r *enumx.Run) {
 				}
 			}
 		}
+	}
+	// derived objects and the refused primary
+	var more []c19netCase
+	for _, call := range []string{"provide", "submit", "proxy"} {
+		for _, second := range []bool{false, true} {
+			for _, cancel := range []bool{true, false} {
+				more = append(more, c19netCase{"hung,healthy", call, second, cancel, "healthy"})
+				more = append(more, c19netCase{"refused|healthy", call, second, cancel, ""})
+			}
+		}
+		more = append(more, c19netCase{"hung,healthy", call, true, true, "hung"})
+	}
+	for _, cs := range more {
+		if !succeedsAlone[cs.Call] {
+			continue
+		}
+		sig, desc, problem := judge(cs)
+		if problem != "" {
+			r.Note("part C: " + problem)
+			continue
+		}
+		r.Eval("net:" + cs.Topology + ":" + cs.Call + ":cfa=" + cs.Scope)
+		r.Steps(1)
+		r.Count("part_c_real_network_scripts", 1)
+		if cs.Scope != "" {
+			r.Count("part_c_scripts_on_client_for_address", 1)
+		} else {
+			r.Count("part_c_scripts_with_refused_primary", 1)
+		}
+		if sig == "" {
+			continue
+		}
+		ok := true
+		for k := 0; k < 2; k++ {
+			s2, _, p2 := judge(cs)
+			ok = ok && p2 == "" && s2 == sig
+		}
+		if !ok {
+			r.Unconfirmed(sig)
+			continue
+		}
+		if cs.Scope != "" {
+			sig += " object=cfa(" + cs.Scope + ")"
+		}
+		r.Violation(sig+" call="+cs.Call, desc+" ["+cs.String()+"]", cs)
+		r.NotExhaustive("part C stopped after its first confirmed violation")
+		return
 	}
 }
